@@ -27,6 +27,8 @@ ASSUMPTIONS = [
 ]
 EXHAUSTIVE = {"quick": False, "thorough": False}
 FINDING_CLASSES = {1: "path-through-dict"}
+# the finding was repaired in /repo (b856eae): the judge compares with the model of the patched code (Model/C11NsFixed.v)
+JUDGE = "judge_fixed"
 META = {
     "level_text": "Proved in Coq for ALL inputs of the modelled space (coq/Properties/C11.v, every theorem closed under the global "
                   "context): ns_refines_dict — for ANY clash set and ANY history (unbounded length, key depth and value size) of "
